@@ -57,9 +57,13 @@ before, R/F/RF with the only mention inside a def / call body raised NameError `
   named <%block>                 def / call        CompileException (not allowed there)
 
   (7) F-C03-7: the callable is a closure, assigns `loop` (its own rewritten `for`) and reads it - itself
-      (UnboundLocalError) or through a callable nested in it (NameError: free variable `loop`, F-C03-7b)
+      (UnboundLocalError) or through a callable nested in it (NameError: free variable `loop`)
   (11)/(11b) F-C03-11: a <%def> / anonymous <%block> directly in a <%call> body (under its control lines) is
       written into `ccall` BESIDE body(), so it is no closure of the body: it has a LoopStack of its own
+      ((11) the read raises, (11b) a loop of its own has parent None)
+Every recorded finding is matched by its shape plus "the symptom is one of that shape's" (`SHAPE_SITES` below: the
+shape's own errors, or - when the template catches the error or a planted exception comes first - a value symptom);
+any other site on a template of that shape is an unknown violation.
 Shapes of the classifier (`hazards`): closure-mixed = (7), loop-in-call-body-def = (11), plus loop-only-in-call-expr
 (F-C03-5), unsized-len (F-C03-6), ret-in-buffering (F-C03-3).  A generated template with any of these shapes is not
 run in the main streams; oracle.quirks runs templates with exactly one of them.
@@ -107,9 +111,10 @@ ASSUMPTIONS = [
     "a closure (nested def, <%call> body) under a `% for` either reads the enclosing `loop` or has loops of its own "
     "in the main streams (both at once is the recorded finding F-C03-7); a <%def> in a <%call> body under a `% for` "
     "of that body does not read `loop` there (F-C03-11)",
-    "a nested def that reads the enclosing `loop` is called at the level of that loop only, not from a deeper "
-    "`% for` (there the closure sees the deeper loop - Python's closure semantics - while textually its innermost "
-    "enclosing loop is the outer one; the property text leaves it open)",
+    "a nested def that reads the enclosing `loop` or has `% for`s with `loop` of its own is called at the loop level "
+    "it is written at only, not from a deeper `% for` (there the closure sees the deeper loop, and its own loops get "
+    "it as `parent`: nested defs share the LoopStack of the function around them - Python's closure semantics - "
+    "while textually the innermost enclosing loop is the outer one; the property text leaves it open)",
     "the shared code-generator model (Codegen/Model.lean `refsLoop`) follows /repo bca4969 (a function holding a "
     "rewritten `% for` creates its `__M_loop`); a start-up probe of the driver guards the three `tgt` comparisons "
     "against an older model (it would leave out the templates whose `% for` is rewritten only because of a `loop` "
@@ -617,9 +622,33 @@ def judge(body, cfg, k, impl=None):
     return site, {"mako": real, "native": nat}, real, nat
 
 
-def case_of(body, cfg, k):
+# The symptoms of each recorded shape (by experiment on the current /repo, see the table in the module docstring).
+# A defect that makes mako raise where the reference goes on shows as that error - or, when the template catches
+# it (`% try`) or a crash point comes first, as any *value* symptom: other output, other output before the
+# planted exception, another evaluation counter, another planted exception reached.  Compile errors and errors of
+# other kinds are NOT symptoms of these shapes: they stay unknown violations.
+VALUE_SITES = ("output-differs", "output-before-exception-differs", "counter-differs")
+SHAPE_SITES = {
+    "ret-in-buffering": [],                                             # the content is lost: value symptoms only
+    "loop-only-in-call-expr": ["render:RuntimeException:No loop context"],   # … or the enclosing loop's values
+    "unsized-len": ["render:TypeError:has no len()"],
+    "closure-mixed": ["render:UnboundLocalError:loop", "render:NameError:loop"],
+    "loop-in-call-body-def": ["render:RuntimeException:No loop context"],    # … or parent None (a value)
+}
+
+
+def symptom_of_shape(site, shape):
+    if shape not in SHAPE_SITES or site is None:
+        return False
+    if site in VALUE_SITES or site.startswith("outcome-differs:") and "error" not in site:
+        return True
+    return site in SHAPE_SITES[shape]
+
+
+def case_of(body, cfg, k, site=None):
+    shape = "+".join(hazards(body)) or "none"
     return {"input": G.to_source(body, cfg.page), "k": k, "config": cfg.to_json(), "tree": body,
-            "shape": "+".join(hazards(body)) or "none"}
+            "shape": shape, "symptom_of_shape": symptom_of_shape(site, shape)}
 
 
 # ---- shrinking
@@ -782,7 +811,7 @@ def report(ctx, site, body, cfg, k, detail, stream):
             detail = d2
         else:
             small = body
-    ctx.violation(site, case_of(small, cfg, k), detail, stream)
+    ctx.violation(site, case_of(small, cfg, k, site), detail, stream)
 
 
 # ------------------------------------------------------------------------------------------------ structural streams
